@@ -31,12 +31,15 @@ Resolve(a, x, subj) ==
       [] a = "entry"   -> "E"
       [] OTHER         -> a
 
-\* observations of a cfg event that the abstract specification rejects: observed granted <=> Granted
+\* observations of a cfg event that the abstract specification rejects:
+\* observed success => MayGrant, observed refusal (false or fault) => ~MustGrant
 BadAt(e, j) ==
     LET i  == e.obs[j][1]
         x  == W!Ctx(U.ctx[i].chain)
     IN {<<i, k>> : k \in {k \in DOMAIN e.accts :
-            (Digit(e.obs[j][2], k) = 1) # (W!CheckX(e.signers, Resolve(e.accts[k], x, e.subj), x) = "T")}}
+            LET a == Resolve(e.accts[k], x, e.subj) IN
+            IF Digit(e.obs[j][2], k) = 1 THEN ~W!MayGrantX(e.signers, a, x)
+            ELSE W!MustGrantX(e.signers, a, x)}}
 BadCfg(e) == UNION {BadAt(e, j) : j \in DOMAIN e.obs}
 
 BadMatch(e) ==
